@@ -1,11 +1,15 @@
 /-
 C03 — demuxing any finite input terminates without panicking.
-Every model function is total (Lean checks termination: each loop is structurally recursive on a fuel
-bounded by the remaining input, and the correspondence run confirms the fuel never runs out).  The iterator
-operations can only panic on a negative offset or length; end of stream is sticky.
+Every model function is total (Lean checks termination: each loop is structurally recursive on a fuel).  The fuel of
+the demuxer loops (`bufferNext`, `dataLoop`, `drain`) is proved sufficient in the section "Termination" below: the
+model computes a fuel-free big-step semantics, repeated `NextPacket` / `NextData` calls reach ErrNoMorePackets within
+an explicit number of calls, and it is sticky.  The iterator operations can only panic on a negative offset or
+length.
 -/
 import Astits.Model.Demux
 import Astits.Proofs.NoPanic
+import Astits.Proofs.Termination
+import Astits.Proofs.TerminationCost
 namespace Astits.C03
 
 /-- the iterator never panics at a non-negative offset -/
@@ -323,5 +327,272 @@ example : (({ r := { data := syncByte :: [1, 2, 3] }, optPacketSize := 2 } : Dem
 #print axioms nextPacket_never_panics
 #print axioms nextData_never_panics
 #print axioms demux_calls_never_panic
+
+/-! ## Termination: progress of `NextPacket`, bounded termination of repeated calls, fuel sufficiency
+
+Helper lemmas: `Astits/Proofs/Termination.lean` (namespace `Astits.Term`).  Everything is stated for every state whose
+packet sizes are supported (`Demux.SizeOK`: explicit size 0 = auto-detect or ≥ 187, installed size ≥ 187), every
+reader kind, skipper and parser kind, and every reader whose injected fault, if any, fires at most once
+(`Term.OneShot`: `faultAt = none ∨ faultOnce = true`); `Term.Good d` is the conjunction of the two.
+
+FINDING (model level; `autoDetectPacketSize` in packet_buffer.go rewinds with `Seek(0, io.SeekStart)`): on a
+*seekable* reader a successful packet-size auto-detection rewinds to absolute offset 0, not to where the detection
+started.  When earlier `NextPacket` calls failed to detect the size (they consumed 193 bytes each and returned an
+error), the first successful detection makes the demuxer re-read the whole input from offset 0: the position moves
+*backwards*, and up to about `2 · len / 187` calls (not `len / 187`) are needed to reach ErrNoMorePackets.  Termination
+still holds because the rewind can happen only once (the packet buffer exists afterwards). -/
+
+section Termination
+open Term
+
+/-- **(Z1) progress of `NextPacket`, branch by branch**, on a fault-free reader: a call that does not return
+ErrNoMorePackets leaves the stream as it is and advances the position
+* by at least the packet size when the packet buffer exists or an explicit size is set (each skipped packet adds one
+  more packet size);
+* when auto-detection fails (the call returns an error and the packet buffer is still missing): by the 193 bytes
+  examined, or up to the end of the data — for every reader kind (seekable and plain readers have read them, a
+  bufio reader discards them; a plain reader that cannot be re-synchronised is left at the end);
+* when auto-detection succeeds with size `s`: a bufio reader (peeked, nothing lost) by at least `s`; a plain reader
+  by at least `3·s` (two packets are lost to the detection); a seekable reader is rewound to offset 0 and then
+  advanced by at least `s` **from 0** (see the FINDING above). -/
+theorem nextPacket_progress (d : Demux) (hok : d.SizeOK) (hf : d.r.faultAt = none)
+    (hne : d.nextPacket.1 ≠ .err .eof) :
+    d.nextPacket.2.r.data = d.r.data ∧ d.nextPacket.2.r.kind = d.r.kind ∧ d.nextPacket.2.r.faultAt = none ∧
+    d.nextPacket.2.r.pos ≤ d.r.data.length ∧
+    (∀ s, d.packetSize = some s → d.r.pos + s ≤ d.nextPacket.2.r.pos) ∧
+    (d.packetSize = none → d.optPacketSize ≠ 0 → d.r.pos + d.optPacketSize ≤ d.nextPacket.2.r.pos) ∧
+    (d.packetSize = none → d.optPacketSize = 0 →
+      (d.nextPacket.2.packetSize = none →
+        d.r.pos < d.nextPacket.2.r.pos ∧
+          (d.r.pos + 193 ≤ d.nextPacket.2.r.pos ∨ d.nextPacket.2.r.pos = d.r.data.length)) ∧
+      (∀ s, d.nextPacket.2.packetSize = some s → 188 ≤ s ∧ s ≤ 192 ∧
+        (d.r.kind = .seek → s ≤ d.nextPacket.2.r.pos) ∧
+        (d.r.kind = .bufio → d.r.pos + s ≤ d.nextPacket.2.r.pos) ∧
+        (d.r.kind ≠ .seek → d.r.kind ≠ .bufio → d.r.pos + 3 * s ≤ d.nextPacket.2.r.pos))) := by
+  have hsem := nextPacket_sem d hok (Or.inl hf)
+  have hsame := hsem.same hok (Or.inl hf)
+  exact ⟨hsame.data, hsame.kind, hsame.faultAt.trans hf, hsem.progress hok hf hne⟩
+
+/-- **(Z1) the position never moves backwards** — whatever the call returns, with or without a one-shot fault —
+in every configuration except auto-detection on a seekable reader -/
+theorem nextPacket_never_backwards (d : Demux) (hok : d.SizeOK) (ho : OneShot d.r)
+    (hc : d.r.kind ≠ .seek ∨ d.packetSize ≠ none ∨ d.optPacketSize ≠ 0) : d.r.pos ≤ d.nextPacket.2.r.pos :=
+  (nextPacket_sem d hok ho).pos_mono hok ho hc
+
+/-- (Z1) a call that finds fewer bytes than one packet returns ErrNoMorePackets (`truncated_tail_is_eof`), and
+ErrNoMorePackets always leaves an exhausted reader behind: no byte left, no fault pending -/
+theorem nextPacket_eof_exhausts (d : Demux) (hok : d.SizeOK) (ho : OneShot d.r) (he : d.nextPacket.1 = .err .eof) :
+    d.nextPacket.2.r.data.length ≤ d.nextPacket.2.r.pos ∧ Exh d.nextPacket.2.r := by
+  have hsem := nextPacket_sem d hok ho
+  rw [he] at hsem
+  exact ⟨(hsem.eof_exh hok ho).2.1, (hsem.eof_exh hok ho).2⟩
+
+/-- the excluded configuration, evaluated (FINDING): 193 bytes that do not start with a sync byte, then a 188-byte
+packet and the next sync byte, on a seekable reader with auto-detection.  Call 1 fails (position 193); call 2 detects
+size 188, rewinds to 0 and reads the first 188 bytes as a packet: the position goes back from 193 to 188. -/
+def rewindDemo (k : ReaderKind) : Demux :=
+  { r := { data := List.replicate 193 0xff ++ (0x47 :: List.replicate 187 0) ++ [0x47], kind := k } }
+
+example : (rewindDemo .seek).nextPacket.2.r.pos = 193 ∧ (rewindDemo .seek).nextPacket.2.nextPacket.2.r.pos = 188 ∧
+    (rewindDemo .seek).nextPacket.2.nextPacket.2.packetSize = some 188 := by decide +kernel
+-- the same bytes on a bufio reader: 193, then 381 (the packet at 193 is returned)
+example : (rewindDemo .bufio).nextPacket.2.r.pos = 193 ∧ (rewindDemo .bufio).nextPacket.2.nextPacket.2.r.pos = 381 ∧
+    (rewindDemo .bufio).nextPacket.2.nextPacket.1.isOk = true := by decide +kernel
+
+/-- **(Z1, measure form; Z4)** every `NextPacket` call that does not return ErrNoMorePackets strictly decreases
+`Term.pktMeasure` = (1 if a one-shot fault is pending) + (whole 187-byte blocks left when the packet size is known |
+blocks left rounded up, plus — seekable reader only — the blocks of the whole data, before a successful detection) -/
+theorem nextPacket_measure_decreases (d : Demux) (hok : d.SizeOK) (ho : OneShot d.r)
+    (hne : d.nextPacket.1 ≠ .err .eof) : pktMeasure d.nextPacket.2 < pktMeasure d :=
+  (nextPacket_sem d hok ho).measure_lt hok ho hne
+
+/-- **(Z2, Z4) bounded termination of `NextPacket`**: for any bytes, reader kind, explicit size ≥ 187 or
+auto-detection, skipper, and at most a one-shot fault: there is `n ≤ pktMeasure d` such that the first `n` calls do
+not return ErrNoMorePackets and call `n + 1` and all later calls do -/
+theorem nextPacket_terminates (d : Demux) (hok : d.SizeOK) (ho : OneShot d.r) :
+    ∃ n, n ≤ pktMeasure d ∧ (∀ k, k < n → (afterPackets d k).nextPacket.1 ≠ .err .eof) ∧
+      ∀ m, n ≤ m → (afterPackets d m).nextPacket.1 = .err .eof :=
+  packets_terminate d ⟨hok, ho⟩
+
+/-- (Z2) the measure in terms of the input length: `len/187` when the size is known and no fault is pending,
+`len/187 + 1` with auto-detection on a reader that cannot seek, `2·(len/187) + 1` on a seekable one; one more with a
+pending fault.  (So ErrNoMorePackets is returned by call number `pktMeasure d + 1` at the latest.) -/
+theorem pktMeasure_bounds (d : Demux) :
+    pktMeasure d ≤ 2 * (d.r.data.length / 187) + 2 ∧
+    (d.r.kind ≠ .seek → pktMeasure d ≤ d.r.data.length / 187 + 2) ∧
+    (d.r.faultAt = none →
+      (d.packetSize ≠ none ∨ d.optPacketSize ≠ 0 → pktMeasure d = (d.r.data.length - d.r.pos) / 187) ∧
+      (d.r.kind ≠ .seek → pktMeasure d ≤ d.r.data.length / 187 + 1) ∧
+      pktMeasure d ≤ 2 * (d.r.data.length / 187) + 1) := by
+  have hphi := phi_le d.r
+  have h0 : d.r.faultAt = none → phi d.r = 0 := by
+    intro hf; unfold phi; rw [fpos_of_none hf, if_neg (by omega)]
+  unfold pktMeasure
+  refine ⟨?_, fun hk => ?_, fun hf => ⟨fun hd => ?_, fun hk => ?_, ?_⟩⟩
+  · split
+    · omega
+    · split <;> omega
+  · rw [if_neg hk]; split <;> omega
+  · rw [if_pos hd, h0 hf]; omega
+  · rw [if_neg hk, h0 hf]; split <;> omega
+  · rw [h0 hf]
+    split
+    · omega
+    · split <;> omega
+
+/-- the `2·(len/187)` of the seekable case is real (FINDING): 10 × 193 bytes of junk, then a detectable packet
+(2119 bytes, `len/187 = 11`): the first 21 calls all return an error other than ErrNoMorePackets, call 22 returns it -/
+def rewindDemoLong : Demux :=
+  { r := { data := List.replicate 1930 0xff ++ (0x47 :: List.replicate 187 0) ++ [0x47], kind := .seek } }
+
+example : ((List.range 21).all fun k => !(afterPackets rewindDemoLong k).nextPacket.1.isEOF) = true ∧
+    (afterPackets rewindDemoLong 21).nextPacket.1.isEOF = true ∧ rewindDemoLong.r.data.length / 187 = 11 := by
+  decide +kernel
+
+/-- **(Z3) fuel sufficiency**: the three fuel-bounded loops of the model (`bufferNext`: skipped packets, `dataLoop`:
+packets that complete no unit, `drain`: accumulators without data) never run out of fuel — `nextPacket` and
+`nextData` compute the fuel-free big-step semantics `Term.NextPacketSem` / `Term.NextDataSem`, inductive relations
+that have no fuel and hence no "fuel exhausted" outcome -/
+theorem fuel_is_sufficient (d : Demux) (hok : d.SizeOK) (ho : OneShot d.r) :
+    NextPacketSem d d.nextPacket.1 d.nextPacket.2 ∧ NextDataSem d d.nextData.1 d.nextData.2 :=
+  ⟨nextPacket_sem d hok ho, nextData_sem d ⟨hok, ho⟩⟩
+
+/-- (Z3) the fuel the model gives its loops, `data.length + 2`, exceeds the measure that bounds their iterations -/
+theorem fuel_exceeds_measure (d : Demux) : pktMeasure d < d.r.data.length + 2 := by
+  have := pktMeasure_le d; omega
+
+/-- **(Z3) every `NextData` call makes progress**: a call served from the data buffer returns data and shortens the
+buffer; a call that runs the packet loop either returns something else than ErrNoMorePackets and strictly decreases
+`Term.dataMeasure` = `2 · pktMeasure + pool.length`, or returns ErrNoMorePackets and leaves nothing behind
+(`Term.Done`: reader exhausted, pool empty, buffer empty).  The invariant is preserved. -/
+theorem nextData_progress (d : Demux) (hok : d.SizeOK) (ho : OneShot d.r) :
+    Good d.nextData.2 ∧
+    (d.dataBuffer ≠ [] → d.nextData.1 ≠ .err .eof ∧ dataMeasure d.nextData.2 = dataMeasure d ∧
+        d.nextData.2.dataBuffer.length + 1 = d.dataBuffer.length) ∧
+    (d.dataBuffer = [] → (d.nextData.1 ≠ .err .eof → dataMeasure d.nextData.2 < dataMeasure d) ∧
+        (d.nextData.1 = .err .eof → Done d.nextData.2)) :=
+  (nextData_sem d ⟨hok, ho⟩).facts ⟨hok, ho⟩
+
+/-- **(Z3) end of stream is sticky, in general**: when nothing is left, `NextData` returns ErrNoMorePackets and
+nothing is left afterwards (generalises `eof_sticky`: any supported size state, exhausted reader) -/
+theorem eof_sticky_general (d : Demux) (hok : d.SizeOK) (ho : OneShot d.r) (h : Done d) (n : Nat) :
+    (afterData d n).nextData.1 = .err .eof :=
+  afterData_done d ⟨hok, ho⟩ h n
+
+/-- **(Z3, Z4) termination of `NextData`**: there is `n` such that the first `n` calls do not return
+ErrNoMorePackets, call `n + 1` and all later calls do, and at most `dataMeasure d` of the first `n` calls ran the
+packet loop; every other one of them returned one buffered data item (a unit that yields `k` items is handed out over
+`k` calls) -/
+theorem nextData_terminates (d : Demux) (hok : d.SizeOK) (ho : OneShot d.r) :
+    ∃ n, (∀ k, k < n → (afterData d k).nextData.1 ≠ .err .eof) ∧
+      (∀ m, n ≤ m → (afterData d m).nextData.1 = .err .eof) ∧
+      loopCalls d n ≤ dataMeasure d :=
+  data_terminate d ⟨hok, ho⟩
+
+/-- (Z3) the bound in terms of the input: from a state with an empty pool, at most `4·(len/187) + 4` calls run the
+packet loop before ErrNoMorePackets (`2·(len/187) + 4` when the reader cannot seek) -/
+theorem dataMeasure_bounds (d : Demux) (hp : d.pool = []) :
+    dataMeasure d ≤ 4 * (d.r.data.length / 187) + 4 ∧
+    (d.r.kind ≠ .seek → dataMeasure d ≤ 2 * (d.r.data.length / 187) + 4) := by
+  obtain ⟨h1, h2, _⟩ := pktMeasure_bounds d
+  unfold dataMeasure
+  rw [hp]
+  refine ⟨by simp only [List.length_nil]; omega, fun hk => ?_⟩
+  have := h2 hk
+  simp only [List.length_nil]; omega
+
+/-- (Z3) counting **all** calls needs more than `len/187 + #PIDs + c`: one 188-byte packet on PID 0 that carries
+15 (empty, CRC-correct) PAT sections yields 15 data items, handed out by 15 `NextData` calls; call 16 is
+ErrNoMorePackets.  Only the first of them runs the packet loop. -/
+def manySectionsDemo : Demux :=
+  { r := { data := [0x47, 0x40, 0x00, 0x10, 0] ++
+      (List.replicate 15 [0, 176, 9, 0, 0, 193, 0, 0, 51, 79, 248, 160]).flatten ++ List.replicate 3 0xff },
+    optPacketSize := 188 }
+
+example : manySectionsDemo.r.data.length = 188 ∧
+    ((List.range 15).all fun k => (afterData manySectionsDemo k).nextData.1.isOk) = true ∧
+    (match (afterData manySectionsDemo 15).nextData.1 with
+     | .err .eof => true
+     | _ => false) = true ∧
+    loopCalls manySectionsDemo 15 = 1 := by decide +kernel
+
+/-- **(Z3, Z4) every `NextData` call that does not return ErrNoMorePackets lowers the total measure**
+`Term.totalMeasure` = buffered items + cost of the packets in the pool (`2·payload + 3` each: a bound on the items
+they can still yield) + `3`·unread bytes (+ 1 for a pending fault, + `3·len` before a successful auto-detection on a
+seekable reader) -/
+theorem nextData_total_progress (d : Demux) (hok : d.SizeOK) (ho : OneShot d.r) (hne : d.nextData.1 ≠ .err .eof) :
+    totalMeasure d.nextData.2 < totalMeasure d := by
+  have hc := (nextData_sem d ⟨hok, ho⟩).cost ⟨hok, ho⟩
+  have h1 : dcost d.nextData.1 = 1 := by
+    unfold dcost
+    split
+    · rename_i e heq
+      rw [if_neg (by intro hc; apply hne; rw [heq, hc])]
+    · rfl
+  omega
+
+/-- **(Z3, Z4) bounded termination of `NextData`, all calls counted**: there is `n ≤ totalMeasure d` such that the
+first `n` calls do not return ErrNoMorePackets and call `n + 1` and every later call do -/
+theorem nextData_terminates_bounded (d : Demux) (hok : d.SizeOK) (ho : OneShot d.r) :
+    ∃ n, n ≤ totalMeasure d ∧ (∀ k, k < n → (afterData d k).nextData.1 ≠ .err .eof) ∧
+      ∀ m, n ≤ m → (afterData d m).nextData.1 = .err .eof :=
+  data_terminate_total d ⟨hok, ho⟩
+
+/-- (Z3) from an initial state: ErrNoMorePackets after at most `3·len + 1` calls (`6·len + 1` with auto-detection on a
+seekable reader) -/
+theorem totalMeasure_bounds (d : Demux) (hp : d.pool = []) (hb : d.dataBuffer = []) :
+    totalMeasure d ≤ 6 * d.r.data.length + 1 ∧
+    (d.packetSize ≠ none ∨ d.optPacketSize ≠ 0 ∨ d.r.kind ≠ .seek → totalMeasure d ≤ 3 * d.r.data.length + 1) :=
+  totalMeasure_init d hp hb
+
+/-- **(Z4) a permanent fault** is different: a reader parked on a fault that fires on every `Read` makes every
+`NextPacket` return the I/O error, unchanged state: ErrNoMorePackets is never reached (the calls still terminate) -/
+theorem permanent_fault_repeats (d : Demux) (s f : Nat) (hs : d.packetSize = some s) (h0 : 0 < s)
+    (hfa : d.r.faultAt = some f) (hfo : d.r.faultOnce = false) (hfd : d.r.faultDone = false) (hpos : d.r.pos = f)
+    (hle : f ≤ d.r.data.length) (n : Nat) : (afterPackets d n).nextPacket = (.err .io, afterPackets d n) := by
+  have key := nextPacket_permanent_fault d s f hs h0 hfa hfo hfd hpos hle
+  have : ∀ n, afterPackets d n = d := by
+    intro n
+    induction n with
+    | zero => rfl
+    | succ n ih => rw [afterPackets_succ, ih, key]
+  rw [this n]; exact key
+
+-- non-vacuity of the hypotheses: arbitrary bytes with auto-detection; explicit size on a plain reader with a script
+-- skipper; a one-shot fault in the middle of the data; a permanent fault
+example : Good ({ r := { data := [1, 2, 3] } } : Demux) := ⟨SizeOK_init _ rfl (Or.inl rfl), Or.inl rfl⟩
+def plainDemo : Demux :=
+  { r := { data := List.replicate 400 0x47, kind := .plain }, optPacketSize := 192, skipper := .script [true, false] }
+example : Good plainDemo := ⟨SizeOK_init _ rfl (Or.inr (by decide)), Or.inl rfl⟩
+example : Good ({ r := { data := List.replicate 400 0x47, kind := .bufio, faultAt := some 200 } } : Demux) :=
+  ⟨SizeOK_init _ rfl (Or.inl rfl), Or.inr rfl⟩
+-- the one-shot fault in action: 400 sync bytes, explicit size 188, fault at 200: packet, I/O error (position 200),
+-- packet, then ErrNoMorePackets for good
+def faultDemo : Demux := { r := { data := List.replicate 400 0x47, faultAt := some 200 }, optPacketSize := 188 }
+example : (afterPackets faultDemo 0).nextPacket.1.isOk = true ∧ (afterPackets faultDemo 2).r.pos = 200 ∧
+    (afterPackets faultDemo 2).nextPacket.1.isOk = true ∧ (afterPackets faultDemo 3).nextPacket.1.isEOF = true ∧
+    (afterPackets faultDemo 4).nextPacket.1.isEOF = true := by decide +kernel
+def permFaultDemo : Demux :=
+  { r := { data := List.replicate 400 0x47, faultAt := some 0, faultOnce := false }, packetSize := some 188 }
+example : (afterPackets permFaultDemo 7).nextPacket = (.err .io, afterPackets permFaultDemo 7) :=
+  permanent_fault_repeats _ 188 0 rfl (by decide) rfl rfl rfl rfl (Nat.zero_le _) 7
+
+end Termination
+
+#print axioms nextPacket_progress
+#print axioms nextPacket_never_backwards
+#print axioms nextPacket_eof_exhausts
+#print axioms nextPacket_measure_decreases
+#print axioms nextPacket_terminates
+#print axioms pktMeasure_bounds
+#print axioms fuel_is_sufficient
+#print axioms nextData_progress
+#print axioms eof_sticky_general
+#print axioms nextData_terminates
+#print axioms dataMeasure_bounds
+#print axioms nextData_total_progress
+#print axioms nextData_terminates_bounded
+#print axioms totalMeasure_bounds
+#print axioms permanent_fault_repeats
 
 end Astits.C03
